@@ -82,6 +82,20 @@ def term_succ(t, include_unwind=False):
     return seen
 
 
+def const_str(c):
+    """string value of a `&str` constant operand dict, or None"""
+    if c is None:
+        return None
+    if "str" in c:
+        return c["str"]
+    if c.get("ty") == "&str" and c.get("text", "").startswith('"') and c["text"].endswith('"'):
+        try:
+            return json.loads(c["text"])
+        except ValueError:
+            return c["text"][1:-1]
+    return None
+
+
 def callee_of(t):
     """(generic def id, resolved def id or None, display name) of a call terminator."""
     c = t.get("callee")
@@ -110,6 +124,8 @@ def strip_generics(s):
         if ch == "<":
             prev = s[i - 1] if i > 0 else ""
             is_generic = prev.isalnum() or prev == "_" or (i >= 2 and s[i - 2:i] == "::")
+            if is_generic and s.startswith("<impl ", i) and not dropping:
+                is_generic = False  # `path::<impl Trait for Type>::method` names an impl block: keep it
             if is_generic:
                 if not dropping and out[-2:] == [":", ":"]:
                     out = out[:-2]
